@@ -951,7 +951,12 @@ func runHostile() {
 		return
 	}
 	var c *child
-	for _, h := range hostileQ {
+	dead := 0 // hangs and runtime fatal errors of the child: each costs seconds, a handful is enough evidence
+	for qi, h := range hostileQ {
+		if dead >= 4 {
+			o.Note("hostile run stopped after %d hangs / fatal errors of the child process; %d hostile cases not run", dead, len(hostileQ)-qi)
+			break
+		}
 		if c == nil {
 			c = startChild()
 		}
@@ -973,6 +978,7 @@ func runHostile() {
 			if a.err != nil { // the child died: runtime fatal error (out of memory, stack overflow)
 				c.cmd.Wait()
 				c = nil
+				dead++
 				res = result{Class: "oom"}
 			} else {
 				parts := strings.Split(strings.TrimRight(a.line, "\n"), "\t")
@@ -988,10 +994,11 @@ func runHostile() {
 					res.Panic = parts[3]
 				}
 			}
-		case <-time.After(10 * time.Second):
+		case <-time.After(6 * time.Second):
 			c.cmd.Process.Kill()
 			c.cmd.Wait()
 			c = nil
+			dead++
 			res = result{Class: "hang"}
 		}
 		implClass := res.Class
